@@ -926,12 +926,22 @@ def gen_disjoint_triple(r, **kw):
         c = copy.deepcopy(base['cells'][i]); _own_edit(r, c, gentle)
         action.append('edit'); newcell.append(c)
     touched = [owner[i] if action[i] != 'keep' else '-' for i in range(n)]
+    def may_insert(s, g):
+        # in side s's own notebook the new cells must not end up next to a cell the other side touched: look past
+        # the cells s itself deletes on both sides of the gap
+        o = 'R' if s == 'L' else 'L'
+        j = g - 1
+        while j >= 0 and touched[j] == s and action[j] == 'delete': j -= 1
+        if j >= 0 and touched[j] == o: return False
+        j = g
+        while j < n and touched[j] == s and action[j] == 'delete': j += 1
+        return not (j < n and touched[j] == o)
     inserts = {}
     for g in range(n + 1):
         if r.random() >= p_insert: continue
-        neigh = set(touched[j] for j in (g - 1, g) if 0 <= j < n) - {'-'}
-        if len(neigh) == 2: continue
-        s = neigh.pop() if neigh else r.choice('LR')
+        cands = [s for s in 'LR' if may_insert(s, g)]
+        if not cands: continue
+        s = r.choice(cands)
         inserts[g] = (s, [gen_cell(r, minor, used, rich) for _ in range(r.choice([1, 1, 2]))])
     def build(sides):
         cells = []
@@ -945,4 +955,204 @@ def gen_disjoint_triple(r, **kw):
         return nb
     return base, build('L'), build('R'), build('LR')
 
-#@@APPEND@@
+# ---------------------------------------------------------------- exhaustive small scope
+def small_cells(alphabet=('a\n', 'b\n', 'c\n'), max_lines=2):
+    sources = [''.join(c) for n in range(max_lines + 1) for c in itertools.product(alphabet, repeat=n)]
+    out = []
+    for s in sources:
+        out.append({'cell_type': 'markdown', 'metadata': {}, 'source': s})
+        out.append({'cell_type': 'code', 'metadata': {}, 'source': s, 'execution_count': None, 'outputs': []})
+        out.append({'cell_type': 'code', 'metadata': {}, 'source': s, 'execution_count': None,
+                    'outputs': [{'output_type': 'stream', 'name': 'stdout', 'text': alphabet[0] if alphabet else 'a\n'}]})
+    return out
+
+def small_notebooks(max_cells=2, alphabet=('a\n', 'b\n', 'c\n')):
+    """all notebooks (minor 4, no ids) with at most max_cells cells drawn from small_cells(alphabet)"""
+    cells = small_cells(alphabet)
+    for n in range(max_cells + 1):
+        for combo in itertools.product(cells, repeat=n):
+            yield {'cells': [copy.deepcopy(c) for c in combo], 'metadata': {}, 'nbformat': 4, 'nbformat_minor': 4}
+
+# ---------------------------------------------------------------- validation (only for processes allowed to import nbformat)
+_VALIDATORS = {}
+def validate(nb):
+    """list of problems (empty if valid): jsonschema against nbformat's installed v4.<minor> schema, plus the id rules"""
+    import os, json
+    import nbformat, jsonschema
+    probs = []
+    minor = nb.get('nbformat_minor')
+    if nb.get('nbformat') != 4 or not isinstance(minor, int) or isinstance(minor, bool) or not 0 <= minor <= 5:
+        return ['nbformat/nbformat_minor not 4 / 0..5: %r %r' % (nb.get('nbformat'), minor)]
+    v = _VALIDATORS.get(minor)
+    if v is None:
+        path = os.path.join(os.path.dirname(nbformat.__file__), 'v4', 'nbformat.v4.%d.schema.json' % minor)
+        with open(path, encoding='utf-8') as f: schema = json.load(f)
+        v = _VALIDATORS[minor] = jsonschema.Draft4Validator(schema)
+    for e in itertools.islice(v.iter_errors(nb), 10):
+        probs.append('schema: %s at %s' % (e.message[:200], '/'.join(str(p) for p in e.absolute_path)))
+    ids = [c.get('id') for c in nb.get('cells', []) if isinstance(c, dict) and 'id' in c]
+    if len(set(ids)) != len(ids): probs.append('duplicate cell ids')
+    if minor < 5 and ids: probs.append('cell ids present in a 4.%d notebook' % minor)
+    return probs
+
+# ---------------------------------------------------------------- self test
+def _features(nb, h):
+    def bump(k): h[k] = h.get(k, 0) + 1
+    bump('minor=%d' % nb['nbformat_minor'])
+    bump('ncells=%s' % (len(nb['cells']) if len(nb['cells']) < 8 else '8+'))
+    for k in nb['metadata']:
+        bump('nbmeta:' + (k if k in NB_MD_RESERVED else '<free>'))
+    def seps(s, where):
+        for ch, name in SEP_NAMES.items():
+            if ch in s: bump('sep[%s]:%s' % (where, name))
+        if '\r\n' in s: bump('sep[%s]:CRLF' % where)
+        if s and not s.endswith(('\n', '\r')): bump('sep[%s]:no-trailing-newline' % where)
+        if not s: bump('sep[%s]:empty' % where)
+        if any(ord(ch) > 127 for ch in s): bump('text[%s]:non-ascii' % where)
+    for c in nb['cells']:
+        bump('cell:' + c['cell_type'])
+        if 'id' in c: bump('cell:with-id')
+        seps(c['source'], 'source')
+        for k in c['metadata']: bump('cellmeta:' + (k if k in CELL_MD_RESERVED else '<free>'))
+        if 'attachments' in c:
+            bump('attachments:cell-' + c['cell_type'])
+            for fn, b in c['attachments'].items():
+                for mt in b: bump('attachments:mime:' + mt)
+        if c['cell_type'] == 'code':
+            bump('execution_count:' + ('null' if c['execution_count'] is None else 'int'))
+            bump('noutputs=%s' % (len(c['outputs']) if len(c['outputs']) < 4 else '4+'))
+            for o in c['outputs']:
+                bump('output:' + o['output_type'])
+                if o['output_type'] == 'stream':
+                    bump('stream:' + o['name']); seps(o['text'], 'stream')
+                    if '0x' in o['text']: bump('pointer-repr:stream')
+                elif o['output_type'] in ('display_data', 'execute_result'):
+                    if o['metadata']: bump('output-metadata:non-empty')
+                    if any(k in o['data'] for k in o['metadata']): bump('output-metadata:keyed-by-mimetype')
+                    for mt, v in o['data'].items():
+                        bump('mime:' + mt)
+                        if mt.lower() in B64_MIMES: bump('base64:' + ('>=64' if len(v) >= 64 else '<64'))
+                        if mt in JSON_MIMES: bump('json-mime-value:' + type(v).__name__)
+                        if isinstance(v, str) and ' at 0x' in v: bump('pointer-repr:data')
+
+def _selftest(nseeds=2000, digest_only=False):
+    import sys, json, time, hashlib, os, subprocess, warnings
+    t0 = time.time()
+    def canon_json(x): return json.dumps(x, sort_keys=True, ensure_ascii=False)
+    def make(seed):
+        """case number `seed`: kinds cycle notebook / pair / triple / disjoint triple; every 5th case is non-rich"""
+        r = random.Random(seed)
+        rich = seed % 5 != 0
+        k = seed % 4
+        if k == 0: return (gen_notebook(r, rich=rich),)
+        if k == 1: return gen_pair(r, rich=rich)
+        if k == 2: return gen_triple(r, rich=rich)
+        return gen_disjoint_triple(r, rich=rich)
+    if digest_only:
+        hsh = hashlib.sha256()
+        for seed in range(nseeds): hsh.update(canon_json(make(seed)).encode('utf-8'))
+        print(hsh.hexdigest()); return 0
+    import nbformat
+    hist, problems, kinds = {}, [], {}
+    nvalid = [0, 0]
+    def bump(k): kinds[k] = kinds.get(k, 0) + 1
+    def check(nb, what, seed, full=True):
+        """full: jsonschema on the raw dict + nbformat.validate + round trip; otherwise nbformat.validate + id rules"""
+        p = validate(nb) if full else []
+        try:
+            with warnings.catch_warnings():
+                warnings.simplefilter('error')      # nbformat reports duplicate ids as a warning
+                nbformat.validate(nbformat.from_dict(nb), version=4, version_minor=nb['nbformat_minor'])
+        except Exception as e:
+            p.append('nbformat.validate: %s: %s' % (type(e).__name__, str(e)[:300]))
+        if full:
+            s = json.dumps(nb, ensure_ascii=False).encode('utf-8')      # raises on lone surrogates
+            if _canon(json.loads(s.decode('utf-8'))) != _canon(nb): p.append('JSON round trip changes the notebook')
+            _features(nb, hist)
+        ids = [c['id'] for c in nb['cells'] if 'id' in c]
+        if len(ids) != (len(nb['cells']) if has_ids(nb) else 0): p.append('ids do not match minor')
+        if len(set(ids)) != len(ids): p.append('duplicate ids')
+        for c in nb['cells']:
+            if not isinstance(c['source'], str): p.append('source is not one string')
+        nvalid[0 if full else 1] += 1
+        if p: problems.append((seed, what, p[:3]))
+    hsh = hashlib.sha256()
+    names = {1: ['notebook'], 2: ['pair.a', 'pair.b'], 3: ['triple.base', 'triple.local', 'triple.remote'],
+             4: ['disjoint.base', 'disjoint.local', 'disjoint.remote', 'disjoint.expected']}
+    for seed in range(nseeds):
+        out = make(seed)
+        hsh.update(canon_json(out).encode('utf-8'))
+        if canon_json(make(seed)) != canon_json(out): problems.append((seed, 'determinism', ['same seed, different output']))
+        for what, x in zip(names[len(out)], out):
+            check(x, what, seed)
+            if x['nbformat_minor'] != out[0]['nbformat_minor']: problems.append((seed, what, ['nbformat_minor differs within the case']))
+        bump('case:' + names[len(out)][0].split('.')[0])
+        if len(out) == 2: bump('pair:' + ('identical' if _canon(out[0]) == _canon(out[1]) else 'different'))
+        if len(out) >= 3:   # new ids of the two sides never collide
+            x, l, m = out[:3]
+            bi = used_ids(x)
+            if (used_ids(l) - bi) & (used_ids(m) - bi): problems.append((seed, 'ids', ['local and remote introduce the same new id']))
+        if len(out) == 3:
+            lab = ('local==base ' if _canon(out[1]) == _canon(out[0]) else '') + ('remote==base ' if _canon(out[2]) == _canon(out[0]) else '') \
+                + ('local==remote' if _canon(out[1]) == _canon(out[2]) else '')
+            bump('triple:' + (lab.strip() or 'all-different'))
+        if len(out) == 4:
+            dbase, dloc, drem, dexp = out
+            seen = set(_canon(c) for x in (dbase, dloc, drem) for c in x['cells'])
+            if any(_canon(c) not in seen for c in dexp['cells']): problems.append((seed, 'disjoint', ['expected has an unseen cell']))
+            if _canon(dloc) == _canon(dbase) and _canon(dexp) != _canon(drem): problems.append((seed, 'disjoint', ['local unchanged but expected != remote']))
+            if _canon(drem) == _canon(dbase) and _canon(dexp) != _canon(dloc): problems.append((seed, 'disjoint', ['remote unchanged but expected != local']))
+            if len(dbase['cells']) < 2: problems.append((seed, 'disjoint', ['base has fewer than 2 cells']))
+            if _canon(dbase['metadata']) != _canon(dexp['metadata']): problems.append((seed, 'disjoint', ['notebook metadata changed']))
+            bump('disjoint:len(expected)-len(base)=%+d' % (len(dexp['cells']) - len(dbase['cells'])))
+        # edit scripts: inputs are not mutated, every single operation keeps validity
+        nb = out[0]
+        r = random.Random(seed + 10 ** 6)
+        snap = canon_json(nb)
+        e = edit_notebook(r, nb, intensity=r.choice([1, 2, 3]))
+        if canon_json(nb) != snap: problems.append((seed, 'mutation', ['edit_notebook mutated its input']))
+        check(e, 'edit_notebook', seed, full=seed % 8 == 0)
+        if seed % 4 == 0:
+            for op in ALL_EDITS:
+                e1 = edit_notebook(r, nb, 1, allow=(op,))
+                check(e1, 'edit:' + op, seed, full=False)
+                bump('edit-changes-notebook:%s:%s' % (op, _canon(e1) != _canon(nb)))
+        l2, m2 = copy.deepcopy(nb), copy.deepcopy(nb)
+        k = force_conflict(r, nb, l2, m2, used_ids(nb))
+        bump('conflict:' + str(k))
+        if canon_json(nb) != snap: problems.append((seed, 'mutation', ['force_conflict / edit_notebook mutated base']))
+        if k is not None:
+            check(l2, 'conflict.local:' + k, seed, full=False); check(m2, 'conflict.remote:' + k, seed, full=False)
+            if _canon(l2) == _canon(m2): bump('conflict-sides-equal:' + k)
+    nsmall = 0
+    for nb in small_notebooks():
+        nsmall += 1
+        if nsmall % 7 == 0 or nsmall < 50:
+            p = validate(nb)
+            if p: problems.append((-1, 'small', p[:3]))
+    # determinism across interpreter hash seeds
+    h150 = hashlib.sha256()
+    for seed in range(min(150, nseeds)): h150.update(canon_json(make(seed)).encode('utf-8'))
+    digests = {h150.hexdigest()}
+    for hs in ('1', '2'):
+        env = dict(os.environ, PYTHONHASHSEED=hs)
+        o = subprocess.run([sys.executable, os.path.abspath(__file__), '--digest', str(min(150, nseeds))], env=env, capture_output=True, text=True, timeout=120)
+        digests.add(o.stdout.strip().splitlines()[-1] if o.stdout.strip() else 'ERR ' + o.stderr[-200:])
+    if len(digests) != 1: problems.append((-1, 'determinism', ['output depends on PYTHONHASHSEED: %r' % sorted(digests)]))
+    print('feature histogram over the %d notebooks of %d cases (kinds cycle notebook / pair / triple / disjoint triple):' % (nvalid[0] - nvalid[0] // 10 ** 9, nseeds))
+    for k in sorted(hist): print('  %-48s %d' % (k, hist[k]))
+    for k in sorted(kinds): print('  %-48s %d' % (k, kinds[k]))
+    print('small_notebooks(): %d notebooks' % nsmall)
+    print('digest %s  time %.1fs' % (hsh.hexdigest()[:16], time.time() - t0))
+    if problems:
+        print('PROBLEMS: %d' % len(problems))
+        for p in problems[:25]: print('  ', p)
+        return 1
+    print('OK: %d notebooks valid under jsonschema (raw dict) + nbformat.validate + JSON round trip, %d more (single edit '
+          'operations, forced conflicts) valid under nbformat.validate; deterministic; inputs not mutated' % tuple(nvalid))
+    return 0
+
+if __name__ == '__main__':
+    import sys
+    if len(sys.argv) > 2 and sys.argv[1] == '--digest': sys.exit(_selftest(int(sys.argv[2]), digest_only=True))
+    sys.exit(_selftest(int(sys.argv[1]) if len(sys.argv) > 1 else 2000))
